@@ -159,22 +159,24 @@ def FItem.cid : FItem → Option Int
   | .inputNew c _ => some c
   | .other o => o.cid
 
+/-- `Kind::decode` after the item id `i` has been read -/
+def kindOfId (hasEx : Bool) (i : Int) : Parser Kind :=
+  if i ≥ 0 then Parser.pure (.playerDiff i)
+  else if i = Gen.Teehistorian.FINISH then Parser.pure .finish
+  else if i = Gen.Teehistorian.TICK_SKIP then Parser.pure .tickSkip
+  else if i = Gen.Teehistorian.PLAYER_NEW then pInt.andThen fun c => Parser.pure (.playerNew c)
+  else if i = Gen.Teehistorian.PLAYER_OLD then pInt.andThen fun c => Parser.pure (.playerOld c)
+  else if i = Gen.Teehistorian.INPUT_DIFF then Parser.pure .inputDiff
+  else if i = Gen.Teehistorian.INPUT_NEW then Parser.pure .inputNew
+  else if i = Gen.Teehistorian.MESSAGE then Parser.pure .message
+  else if i = Gen.Teehistorian.JOIN then Parser.pure .join
+  else if i = Gen.Teehistorian.DROP then Parser.pure .drop
+  else if i = Gen.Teehistorian.CONSOLE_COMMAND then Parser.pure .consoleCommand
+  else if i = Gen.Teehistorian.EX ∧ hasEx then Parser.pure .ex
+  else Parser.fail (.unknownType i)
+
 /-- `Kind::decode` -/
-def parseKind (hasEx : Bool) : Parser Kind :=
-  pInt.andThen fun i =>
-    if i ≥ 0 then Parser.pure (.playerDiff i)
-    else if i = Gen.Teehistorian.FINISH then Parser.pure .finish
-    else if i = Gen.Teehistorian.TICK_SKIP then Parser.pure .tickSkip
-    else if i = Gen.Teehistorian.PLAYER_NEW then pInt.andThen fun c => Parser.pure (.playerNew c)
-    else if i = Gen.Teehistorian.PLAYER_OLD then pInt.andThen fun c => Parser.pure (.playerOld c)
-    else if i = Gen.Teehistorian.INPUT_DIFF then Parser.pure .inputDiff
-    else if i = Gen.Teehistorian.INPUT_NEW then Parser.pure .inputNew
-    else if i = Gen.Teehistorian.MESSAGE then Parser.pure .message
-    else if i = Gen.Teehistorian.JOIN then Parser.pure .join
-    else if i = Gen.Teehistorian.DROP then Parser.pure .drop
-    else if i = Gen.Teehistorian.CONSOLE_COMMAND then Parser.pure .consoleCommand
-    else if i = Gen.Teehistorian.EX ∧ hasEx then Parser.pure .ex
-    else Parser.fail (.unknownType i)
+def parseKind (hasEx : Bool) : Parser Kind := pInt.andThen (kindOfId hasEx)
 
 /-- Field kinds of the generated `decodeReads` table. -/
 inductive FieldK where
